@@ -52,6 +52,7 @@ type Sim struct {
 	Prop     string
 	Scenario string
 	Seed     uint64
+	RunIndex int // position of this run in the batch (systematic enumeration of fault points)
 
 	rng     *rand.Rand
 	feed    []int32
